@@ -35,3 +35,6 @@ Qed.
 
 Lemma nth_repeat_lt {B} (a d : B) n i : i < n -> nth i (repeat a n) d = a.
 Proof. revert i; induction n as [|n IH]; intros i H; [lia|]. destruct i; cbn; [reflexivity|]. apply IH. lia. Qed.
+
+Lemma Forall_concat {B} (P : B -> Prop) (ll : list (list B)) : Forall (Forall P) ll -> Forall P (concat ll).
+Proof. induction 1 as [|l ll Hl _ IH]; cbn; [constructor | apply Forall_app; split; assumption]. Qed.
